@@ -1174,6 +1174,30 @@ def route_case(ctx, case):
 COMPONENTS['route'] = route_case
 
 
+def dead_peer_case(ctx, case):
+    """'Ordinary outgoing listeners run after [the packet] has been
+    written': when the flush inside disconnect() cannot write because the
+    peer is gone, they do not run for the unwritten packets (C16's dead-peer
+    scenario, which also registers such a listener)."""
+    from props import c16_lifecycle as P16
+    P16.dead_peer_disconnect_case(ctx, case)
+
+
+COMPONENTS['dead_peer'] = dead_peer_case
+
+
+def t_dead_peer(ctx):
+    k = 0
+    for v in (757, 47):
+        for queued in (1, 3):
+            for comp in (None, 64):
+                k += 1
+                dead_peer_case(ctx, {'version': v, 'queued': queued,
+                                     'immediate': [False, 0][k % 2],
+                                     'compress': comp,
+                                     'then_connect': False})
+
+
 def t_pending_write_error(ctx):
     from props import c14_exceptions as P14
     for origin in ('listener', 'early_listener'):
@@ -1225,7 +1249,8 @@ def tasks(tier):
     q = tier == 'quick'
     tl = [('fixed', t_fixed, {}), ('ignore_success', t_ignore_success, {}),
           ('rewrite', t_rewrite, {}),
-          ('pending_write_error', t_pending_write_error, {})]
+          ('pending_write_error', t_pending_write_error, {}),
+          ('dead_peer', t_dead_peer, {})]
     for i in range(10 if q else 16):
         tl.append(('random_%d' % i, t_random, dict(n=300 if q else 2500)))
     for i in range(2 if q else 4):
